@@ -398,6 +398,13 @@ func (c *CheckCtx) runSeq(scs []*Scenario) error {
 			sc := byH[m.H]
 			props := propsOfMismatch(m, ev)
 			props = append(props, slotKeeping(all, m.L-1)...)
+			if sc != nil {
+				for _, tg := range sc.Tags { // scenario families built for one property
+					if strings.HasPrefix(tg, "also:") {
+						props = append(props, strings.TrimPrefix(tg, "also:"))
+					}
+				}
+			}
 			mine := false
 			for _, p := range props {
 				if p == c.Prop {
@@ -589,7 +596,7 @@ func propsOfMismatch0(m Mismatch, ev map[string]any) []string {
 	case "skip.signal", "noargs":
 		return []string{"C20"}
 	case "clean.entry.unlisted":
-		return []string{"C09"}
+		return []string{"C09", "C20"}
 	case "clean.entry.overlisted":
 		switch m.Info {
 		case "addressed":
@@ -607,7 +614,7 @@ func propsOfMismatch0(m Mismatch, ev map[string]any) []string {
 		case "nodelete":
 			return []string{"C09", "C05", "C10"}
 		}
-		return []string{"C09", "C10"}
+		return []string{"C09", "C10", "C20"} // removed but not listed: the summary does not list what Clean judged obsolete
 	case "clean.entry.kept":
 		return []string{"C09"}
 	case "clean.entry.added":
